@@ -31,7 +31,6 @@ Proof.
   rewrite Forall_forall in A. destruct (A body HB) as [S1 S2].
   eapply emit_script_correct_src; eassumption.
 Qed.
-Print Assumptions compiled_scripts_correct.
 
 (* The same, with the label premise stated on the source text: the labels the author wrote in the script (at any nesting
    depth) are pairwise distinct.  WorkLabels.v: the worklist conserves the labels (the chunk labels of the final graph are a
@@ -60,7 +59,6 @@ Proof.
   rewrite Forall_forall in A. destruct (A body HB) as [S _].
   eapply compiled_scripts_correct; try eassumption. apply labels_ok_from_source; assumption.
 Qed.
-Print Assumptions compiled_scripts_correct_distinct_labels.
 
 (* C01 FROM THE SOURCE TEXT WITH NO VALIDATOR OF THE COMPILER'S WORK LEFT.  wf_render and labels_okb are theorems now
    (RenderFromSource.v: worklist shape invariants, both chunk orders, label injectivity).  What remains are conditions on what the
@@ -93,7 +91,6 @@ Proof.
   destruct (render_check_from_source mp tl name glob optimize body w code HW S HE ND SZ NM) as [WR LO].
   eapply compiled_scripts_correct; eassumption.
 Qed.
-Print Assumptions compiled_scripts_correct_from_source.
 
 (* C05 from the source text: the two outputs (-optimize off / on) of every script body of every accepted program behave alike *)
 Theorem optimize_equiv_from_source
@@ -123,4 +120,3 @@ Proof.
   - destruct (B0 m s) as (n & R). destruct (F1 n s) as (m' & E). exists m'. rewrite <- E. exact R.
   - destruct (B1 m s) as (n & R). destruct (F0 n s) as (m' & E). exists m'. rewrite <- E. exact R.
 Qed.
-Print Assumptions optimize_equiv_from_source.
